@@ -78,8 +78,10 @@ def _make_interpreter() -> None:
     atexit.register(lambda: shutil.rmtree(_TMP, ignore_errors=True))
 
 
-def pval(v: T.Any) -> T.Dict[str, T.Any]:
+def pval(v: T.Any, depth: int = 0) -> T.Dict[str, T.Any]:
     """python value -> spec value record"""
+    if depth > 40:
+        return {'k': 'alien:TooDeepOrCyclic', 'n': 0, 's': [], 'e': []}     # a broken interpreter may build cyclic values
     held = getattr(v, 'held_object', v)
     if isinstance(held, bool):
         return {'k': 'bool', 'n': 1 if held else 0, 's': [], 'e': []}
@@ -90,13 +92,13 @@ def pval(v: T.Any) -> T.Dict[str, T.Any]:
     if isinstance(held, str):
         return {'k': 'str', 'n': 0, 's': [ord(c) for c in held], 'e': []}
     if isinstance(held, list):
-        return {'k': 'arr', 'n': 0, 's': [], 'e': [pval(x) for x in held]}
+        return {'k': 'arr', 'n': 0, 's': [], 'e': [pval(x, depth + 1) for x in held]}
     if isinstance(held, dict):
         return {'k': 'dict', 'n': 0, 's': [],
-                'e': [{'k': 'ent', 'n': 0, 's': [ord(c) for c in str(k)], 'e': [pval(x)]} for k, x in held.items()]}
+                'e': [{'k': 'ent', 'n': 0, 's': [ord(c) for c in str(k)], 'e': [pval(x, depth + 1)]} for k, x in held.items()]}
     if type(held).__name__ == 'Interpreter' and hasattr(held, 'variables'):       # SubprojectHolder -> sub-interpreter
         name = getattr(held, 'subproject', '') or ''
-        ents = [{'k': 'ent', 'n': 0, 's': [ord(c) for c in str(k)], 'e': [pval(x)]} for k, x in held.variables.items()]
+        ents = [{'k': 'ent', 'n': 0, 's': [ord(c) for c in str(k)], 'e': [pval(x, depth + 1)]} for k, x in held.variables.items()]
         return {'k': 'subproj', 'n': 0, 's': [ord(c) for c in name], 'e': [{'k': 'dict', 'n': 0, 's': [], 'e': ents}]}
     rng = getattr(held, 'range', None)
     if isinstance(rng, range):
